@@ -5,6 +5,7 @@ import (
 	"fmt"
 	"io"
 	"strconv"
+	"unicode/utf8"
 )
 
 const encodeHex = "0123456789ABCDEF"
@@ -20,6 +21,17 @@ func writeQuotedString(w io.Writer, s string) {
 	io.WriteString(w, `"`)
 
 	for i, c := range s {
+		if c == utf8.RuneError {
+			// A byte that is not part of a well-formed UTF-8 sequence decodes to
+			// RuneError with width 1; a literal U+FFFD has width 3. Emit the escape
+			// for U+FFFD so the output stays valid UTF-8 (as encoding/json does).
+			if _, size := utf8.DecodeRuneInString(s[i:]); size == 1 {
+				io.WriteString(w, s[start:i])
+				io.WriteString(w, `\ufffd`)
+				start = i + 1
+				continue
+			}
+		}
 		if c < 0x20 || c == '\\' || c == '"' {
 			io.WriteString(w, s[start:i])
 
